@@ -481,3 +481,26 @@ impl<'a> AddressUtxoSet<'a> {
 //@|             && u == added_utxo_at(old(self).unstable_blocks, added_spec(old(self).unstable_blocks, *block_hash, old(self).address), i)),
 //@end
 }
+
+// ---- C01 / C06: the offset filter of the unstable source in AddressUtxoSet::into_iter (address_utxoset.rs:117) -------------
+// [trusted:axioms] Utxo's hand-written PartialOrd is total (partial_cmp = Some(cmp), types.rs:598)
+#[verifier::external_body]
+proof fn axiom_utxo_order_total()
+    ensures
+        <Utxo as vstd::std_specs::cmp::PartialOrdSpec>::obeys_partial_cmp_spec(),
+        forall|a: Utxo, b: Utxo| #[trigger] vstd::std_specs::cmp::PartialOrdSpec::partial_cmp_spec(&a, &b) is Some,
+{}
+//@slice file=canister/src/address_utxoset.rs in="impl<'a> AddressUtxoSet<'a>" item="fn into_iter" block_after=".filter(move |utxo| match &offset {" props=C01,C06,C05
+//@ head
+//@| // R8 slice: the body of the closure that resumes the unstable source at a page offset
+//@| fn into_iter_offset_filter(utxo: &Utxo, offset: Option<Utxo>) -> (r: bool)
+//@|     ensures
+//@|         // an unstable UTXO is skipped iff it lies strictly before the offset in Utxo order: the element the page token
+//@|         // names (the first one omitted from the previous page) is served again, nothing at or after it is lost
+//@|         !r <==> (offset matches Some(o) && vstd::std_specs::cmp::PartialOrdSpec::partial_cmp_spec(utxo, &o) == Some(core::cmp::Ordering::Less)),
+//@| {
+//@|     proof { axiom_utxo_order_total(); }
+//@|     match &offset
+//@ tail
+//@| }
+//@end
